@@ -1,7 +1,7 @@
 #!/usr/bin/env python3
 """Self-test of the checks: fire on broken variants, stay silent on equivalent ones.
 
-  selftest/run.py [--props C01,C07] [--kinds seeded,mutants,refactors] [--json out.json] [--repo /repo] [-j N]
+  selftest/run.py [--props C01,C07] [--kinds seeded,mutants,refactors] [--json out.json] [--repo /repo] [-j N] [--all-props]
 
 For every fixture a scratch copy of the repository's working tree is made under $TMPDIR
 (never inside /repo or /verif), the patch is applied to the copy, the *static* check of
@@ -13,6 +13,9 @@ removed. Nothing from the repository is executed.
   selftest/mutants/<Cxx>-*.diff      one rule instance broken by hand: the check must print VIOLATION
                                      (a first line `# expect: <rule id>` names the rule that has to fire)
   selftest/refactors/<Cxx>-*.diff    behaviour-preserving edit: the check must stay silent
+
+--all-props runs every refactor fixture against all twenty properties (an edit that preserves
+behaviour must not alarm any of them).
 
 Exit status 0 iff every fixture that applies behaves as stated. A fixture whose patch no
 longer applies (the code it touches was edited) is reported as `stale` and not counted.
@@ -78,6 +81,15 @@ def run_one(fx, repo):
         env = dict(os.environ)
         env["VERIF_EVIDENCE_DIR"] = os.path.join(scratch, "ev")
         env["VERIF_NOBUILD"] = "1"
+        if fx.get("all_props"):
+            # a behaviour-preserving edit must leave EVERY property's check silent, not only its own
+            alarms = []
+            for n in range(1, 21):
+                p = "C%02d" % n
+                r = subprocess.run([os.path.join(ROOT, "check"), p, "quick", "--repo", dst], env=env, capture_output=True, text=True)
+                if r.returncode != 0 or any(l.startswith("VIOLATION ") for l in r.stdout.splitlines()):
+                    alarms += ["%s:%s" % (p, m.group(1)) for m in re.finditer(r"^(?:VIOLATED|UNDECIDED): (\S+)", r.stdout, re.M)] or [p + ":exit%d" % r.returncode]
+            return dict(fx, fired=alarms, exit=1 if alarms else 0, result="FALSE-ALARM" if alarms else "silent")
         r = subprocess.run([os.path.join(ROOT, "check"), fx["prop"], "quick", "--repo", dst], env=env, capture_output=True, text=True)
         fired = sorted({m.group(1) for m in re.finditer(r"^(?:VIOLATED|UNDECIDED): (\S+)", r.stdout, re.M)})
         violation = any(l.startswith("VIOLATION ") for l in r.stdout.splitlines())
@@ -97,6 +109,7 @@ def run_one(fx, repo):
 def main():
     args = sys.argv[1:]
     props, kinds, out_json, repo, jobs = None, {"seeded", "mutants", "refactors"}, None, "/repo", 8
+    all_props = False
     i = 0
     while i < len(args):
         if args[i] == "--props":
@@ -111,11 +124,15 @@ def main():
         elif args[i] == "--repo":
             i += 1
             repo = args[i]
+        elif args[i] == "--all-props":
+            all_props = True
         elif args[i] == "-j":
             i += 1
             jobs = int(args[i])
         i += 1
     fxs = fixtures(kinds, props)
+    if all_props:
+        fxs = [dict(f, all_props=True) for f in fxs if f["kind"] == "refactors"]
     # build the analyser once, before the parallel runs
     b = subprocess.run(["go", "build", "-o", "bin/yardlcheck", "./cmd/yardlcheck"], cwd=os.path.join(ROOT, "checker"),
                        env=dict(os.environ, GOFLAGS="-mod=mod", GOPROXY="off"), capture_output=True, text=True)
